@@ -1198,7 +1198,10 @@ def run_flow_phase(ctx, spec, root, helper, ca, phase, doc, replay_obj):
         st = state.get(p, {"present": False})
         if fo["present"] != st["present"] or (fo["present"] and fo["sha256"] != st.get("sha256")):
             owner = "account" if p.startswith(accounts_dir) else "certificate"
-            if any(set(h["types"]) & set(FILE_TYPES) for h in attached[owner]):
+            # only hooks of the types this write would trigger can have reported it: an existing file that is
+            # rewritten triggers the edit types, a new file the create types
+            due = ("file-pre-edit", "file-post-edit") if st["present"] else ("file-pre-create", "file-post-create")
+            if any(set(h["types"]) & set(due) for h in attached[owner]):
                 ctx.violation("%s: %s changed without (complete) file hook events: final %s, last bracketed state %s" % (
                     what, p, fo.get("sha256"), st.get("sha256")), replay_obj)
                 return False
